@@ -1,7 +1,7 @@
 package sam
 
 import (
-	"encoding/csv"
+	"bufio"
 	"io"
 	"iter"
 	"strings"
@@ -12,29 +12,29 @@ import (
 // ReaderHeader iterates over SAM or header entries in a reader.
 func ReaderHeader(r io.Reader) iter.Seq2[SAMOrHeader, error] {
 	return func(yield func(SAMOrHeader, error) bool) {
-		csvReader := csv.NewReader(r)
-		csvReader.Comma = '\t'
-		csvReader.FieldsPerRecord = -1 // Allow variable number of fields.
-		csvReader.LazyQuotes = true
-		for {
-			line, err := csvReader.Read()
-			if err == io.EOF {
-				break
-			}
+		// SAM has no quoting; lines are split on tabs and nothing else.
+		lineReader := bufio.NewReader(r)
+		for atEOF := false; !atEOF; {
+			text, err := lineReader.ReadString('\n')
+			atEOF = err == io.EOF
 			// Error case. A failed read ends the iteration; the line that
 			// was being read is incomplete and is not parsed.
-			if err != nil {
+			if err != nil && !atEOF {
 				yield(SAMOrHeader{}, err)
 				break
 			}
+			text = strings.TrimSuffix(strings.TrimSuffix(text, "\n"), "\r")
+			if text == "" { // Empty lines are skipped.
+				continue
+			}
 			// Header line case.
-			if len(line) > 0 && strings.HasPrefix(line[0], "@") {
-				h := strings.Join(line, "\t")
-				if !yield(SAMOrHeader{H: &h}, nil) {
+			if strings.HasPrefix(text, "@") {
+				if !yield(SAMOrHeader{H: &text}, nil) {
 					break
 				}
 				continue
 			}
+			line := strings.Split(text, "\t")
 			// SAM line case.
 			s, err := parseLine(line)
 			if !yield(SAMOrHeader{S: s}, err) {
